@@ -79,6 +79,10 @@ type resourceManager struct {
 	topologyOptionsManager TopologyOptionsManager
 	lock                   sync.Mutex
 	nodeAllocations        map[string]*NodeAllocation
+	// pendingAllocations holds allocations reported (pod / reservation informer) before the node's CPU topology
+	// (NodeResourceTopology informer) is known; the informers are started together, and nothing re-delivers a pod.
+	// They are applied by getOrCreateNodeAllocation as soon as the topology is valid.
+	pendingAllocations map[string]map[types.UID]*PodAllocation
 }
 
 func NewResourceManager(
@@ -116,6 +120,7 @@ func (c *resourceManager) onNodeDelete(obj interface{}) {
 	c.lock.Lock()
 	defer c.lock.Unlock()
 	delete(c.nodeAllocations, node.Name)
+	delete(c.pendingAllocations, node.Name)
 }
 
 func (c *resourceManager) getOrCreateNodeAllocation(nodeName string) *NodeAllocation {
@@ -125,6 +130,16 @@ func (c *resourceManager) getOrCreateNodeAllocation(nodeName string) *NodeAlloca
 	if v == nil {
 		v = NewNodeAllocation(nodeName)
 		c.nodeAllocations[nodeName] = v
+	}
+	if pending := c.pendingAllocations[nodeName]; len(pending) > 0 {
+		if cpuTopology := c.topologyOptionsManager.GetTopologyOptions(nodeName).CPUTopology; cpuTopology.IsValid() {
+			v.lock.Lock()
+			for _, allocation := range pending {
+				v.update(allocation, cpuTopology)
+			}
+			v.lock.Unlock()
+			delete(c.pendingAllocations, nodeName)
+		}
 	}
 	return v
 }
@@ -465,6 +480,16 @@ func (c *resourceManager) allocateCPUSet(node *corev1.Node, pod *corev1.Pod, all
 func (c *resourceManager) Update(nodeName string, allocation *PodAllocation) {
 	topologyOptions := c.topologyOptionsManager.GetTopologyOptions(nodeName)
 	if !topologyOptions.CPUTopology.IsValid() {
+		// keep it until the topology arrives instead of dropping it
+		c.lock.Lock()
+		if c.pendingAllocations == nil {
+			c.pendingAllocations = map[string]map[types.UID]*PodAllocation{}
+		}
+		if c.pendingAllocations[nodeName] == nil {
+			c.pendingAllocations[nodeName] = map[types.UID]*PodAllocation{}
+		}
+		c.pendingAllocations[nodeName][allocation.UID] = allocation
+		c.lock.Unlock()
 		return
 	}
 
@@ -476,6 +501,9 @@ func (c *resourceManager) Update(nodeName string, allocation *PodAllocation) {
 }
 
 func (c *resourceManager) Release(nodeName string, podUID types.UID) {
+	c.lock.Lock()
+	delete(c.pendingAllocations[nodeName], podUID)
+	c.lock.Unlock()
 	nodeAllocation := c.getOrCreateNodeAllocation(nodeName)
 	nodeAllocation.lock.Lock()
 	defer nodeAllocation.lock.Unlock()
